@@ -442,9 +442,33 @@ func checkAtomicReplace(c *Ctx, rule, name string, fs *FuncSrc, needSync bool) {
 	c.Check(okDir, rule, name+": temporary file in the target's directory", create.Pos(),
 		"os.CreateTemp(filepath.Dir(target), ...) with target the file renamed over", "the temporary file is not created in the directory of the target: the rename may cross file systems and is then not atomic")
 	// (b) rename source is the temp file's name
+	// the expression is f.Name(), a variable defined once from it, or a variable
+	// that the state at its use equates (through copies) with the result of f.Name()
+	var nameCalls []*ast.CallExpr
+	ast.Inspect(fs.Body(), func(n ast.Node) bool {
+		if call, ok := n.(*ast.CallExpr); ok && fileVar != nil && isMethodOn(info, call, "Name", fileVar) {
+			nameCalls = append(nameCalls, call)
+		}
+		return true
+	})
 	isTempName := func(e ast.Expr) bool {
-		call := defCall(fs, ff, e)
-		return call != nil && isMethodOn(info, call, "Name", fileVar)
+		if call := defCall(fs, ff, e); call != nil && isMethodOn(info, call, "Name", fileVar) {
+			return true
+		}
+		t := ff.term(e)
+		st, _ := ff.At(e)
+		if t == nil || st == nil {
+			return false
+		}
+		for _, nc := range nameCalls {
+			if st.EqualUnder(t, &Term{K: 'r', Name: "res0", Pos: nc.Lparen}) {
+				return true
+			}
+			if nt := ff.term(nc); nt != nil && nt.K == 'k' && st.EqualUnder(t, nt) {
+				return true
+			}
+		}
+		return false
 	}
 	c.Check(fileVar != nil && isTempName(rename.Args[0]), rule, name+": renames the temporary file", rename.Pos(), "os.Rename(f.Name(), target)", "the file renamed over the target is not the temporary file that was written")
 	// (b') nothing but the temporary file is removed once the replacement has begun
@@ -845,13 +869,43 @@ func c18Preconditions(c *Ctx) {
 			}
 		}
 	}
-	// the function's last statement returns false
-	if n := len(em.Body().List); n > 0 {
-		if ret, ok := em.Body().List[n-1].(*ast.ReturnStmt); ok && len(ret.Results) == 1 {
-			if tv := einfo.Types[ret.Results[0]]; tv.Value != nil && tv.Value.String() == "false" {
-				okDefault = true
+	// nothing but an equal tag (or '*', above) matches: every other return is the constant false
+	okDefault = true
+	nfalse := 0
+	for _, ret := range eff.Returns() {
+		if len(ret.Results) != 1 {
+			okDefault = false
+			continue
+		}
+		r := unparen(ret.Results[0])
+		if be, ok := r.(*ast.BinaryExpr); ok && be.Op == token.NEQ {
+			continue // the '*' form, checked above
+		}
+		tv := einfo.Types[r]
+		if tv.Value == nil {
+			okDefault = false
+			continue
+		}
+		if tv.Value.String() == "false" {
+			nfalse++
+			continue
+		}
+		// true: under <something> == etag
+		st, _ := eff.At(ret)
+		eq := false
+		if st != nil {
+			for _, f := range st.Facts() {
+				if f.Op == "eq" && f.Pos && f.B != nil && (f.A.String() == TVar(eparams[0]).String() || f.B.String() == TVar(eparams[0]).String()) {
+					eq = true
+				}
 			}
 		}
+		if !eq {
+			okDefault = false
+		}
+	}
+	if nfalse == 0 {
+		okDefault = false
 	}
 	c.Check(okStar, "R18.4", "etagMatch: '*' matches iff the object exists", em.Pos(), "under header[0] == '*' the result is etag != \"\"", "'*' no longer means 'any existing version': If-None-Match: * cannot protect creation")
 	c.Check(okEmpty && okDefault, "R18.4", "etagMatch: an absent or unmatched header never matches", em.Pos(), "empty header -> false; fall-through -> false", "an empty or unparsable header can match")
